@@ -46,6 +46,44 @@ fn zero() {
     );
 }
 
+/// standard-trait entry points that ordinary code reaches without naming them (`clone_from` through `Vec::clone_from` /
+/// `Option::clone_from`, comparisons): a handle's bytes never change because of what is done to ANOTHER handle
+fn traits() {
+    for (i, n) in [1usize, 64, 4096, 5000].iter().enumerate() {
+        let a_data = payload(4000 + i as u64, *n);
+        let b_data = payload(5000 + i as u64, *n);
+        let a = IpcSharedMemory::from_bytes(&a_data);
+        let a2 = a.clone();
+        let (tx, rx) = ipc::channel::<IpcSharedMemory>().unwrap();
+        tx.send(a.clone()).unwrap();
+        let a3 = rx.recv().unwrap();
+        let b = IpcSharedMemory::from_bytes(&b_data);
+        let mut d = a.clone();
+        d.clone_from(&b);
+        let ok = d[..] == b_data[..] && a[..] == a_data[..] && a2[..] == a_data[..] && a3[..] == a_data[..] && b[..] == b_data[..];
+        emit(&format!("ipc clone_from with a source of the same length {}: destination = source, every other handle unchanged", n), ok,
+             json!([d[..] == b_data[..], a[..] == a_data[..], a2[..] == a_data[..], a3[..] == a_data[..]]));
+        let mut v = vec![a.clone(), a2.clone()];
+        let w = vec![b.clone(), b.clone()];
+        v.clone_from(&w);
+        let ok = v.iter().all(|x| x[..] == b_data[..]) && a[..] == a_data[..] && a3[..] == a_data[..];
+        emit(&format!("ipc Vec::clone_from over regions of the same length {}", n), ok, json!([a[..] == a_data[..], a3[..] == a_data[..]]));
+        let mut o = Some(a.clone());
+        o.clone_from(&Some(b.clone()));
+        let ok = o.as_ref().map(|x| x[..] == b_data[..]).unwrap_or(false) && a[..] == a_data[..] && a3[..] == a_data[..];
+        emit(&format!("ipc Option::clone_from over regions of the same length {}", n), ok, json!([a[..] == a_data[..], a3[..] == a_data[..]]));
+        emit(&format!("ipc equality is by contents, length {}", n), a == a2 && a == a3 && a != b && d == b, json!(null));
+        // platform level
+        let pa = OsIpcSharedMemory::from_bytes(&a_data);
+        let pa2 = pa.clone();
+        let pb = OsIpcSharedMemory::from_bytes(&b_data);
+        let mut pd = pa.clone();
+        pd.clone_from(&pb);
+        let ok = pd[..] == b_data[..] && pa[..] == a_data[..] && pa2[..] == a_data[..] && pb[..] == b_data[..];
+        emit(&format!("platform clone_from with a source of the same length {}", n), ok, json!([pd[..] == b_data[..], pa[..] == a_data[..], pa2[..] == a_data[..]]));
+    }
+}
+
 fn case(a: &std::collections::HashMap<String, String>) {
     let id: u64 = a["id"].parse().unwrap();
     let len: usize = a["len"].parse().unwrap();
@@ -224,7 +262,10 @@ pub fn run() {
         let line = line.unwrap();
         let a = kv(&line);
         match a.get("op").map(|s| s.as_str()) {
-            Some("zero") => zero(),
+            Some("zero") => {
+                zero();
+                traits();
+            },
             Some("mmapfail") => mmapfail(),
             Some("case") => {
                 mark(&format!("shm {}", a["id"]));
